@@ -57,44 +57,65 @@ func IsValidatorError(err error) (*ValidationError, bool) {
 
 // AddErrorToValidation joins two errors together into a ValidatorError
 func AddErrorToValidation(e1, e2 error) *ValidationError {
-	var e *ValidationError
-	// if e1 is nil and e2 is not, short circuit using e2
-	if (e1 == nil || reflect.ValueOf(e1).IsNil()) && e2 != nil {
-		if errors.As(e2, &e) {
-			// e1 is nil and e2 is a ValidationError, return e2
-			return e2.(*ValidationError)
+	e1Nil, e2Nil := isNilError(e1), isNilError(e2)
+	var ve, ve2 *ValidationError
+	if e1Nil {
+		// if e1 is nil short circuit using e2
+		if e2Nil {
+			return nil
 		}
-		// e1 is nil and e2 is an error.  Return new validation error using
+		if errors.As(e2, &ve2) {
+			return ve2
+		}
 		return NewValidationError("", e2.Error(), false)
 	}
 
-	var ve *ValidationError
-	if errors.As(e1, &e) {
-		//nolint:errcheck // above line infers its castable
-		ve = e1.(*ValidationError)
-	} else {
+	if !errors.As(e1, &ve) {
 		ve = NewValidationError("", e1.Error(), false)
 	}
+	if e2Nil {
+		return ve
+	}
+	if ve.errorMap == nil {
+		ve.errorMap = make(map[string][]string)
+	}
+	if ve.warningMap == nil {
+		ve.warningMap = make(map[string][]string)
+	}
+	if ve.children == nil {
+		ve.children = make(map[string]*ValidationError)
+	}
 
-	if errors.As(e2, &e) {
-		errMap := ve.GetErrorMap()
-		for key, msg := range e2.(*ValidationError).GetFlatErrorMap() {
-			addMsgs(errMap, key, msg...)
+	if errors.As(e2, &ve2) {
+		for key, msg := range ve2.GetFlatErrorMap() {
+			addMsgs(ve.errorMap, key, msg...)
 		}
-		warnMap := ve.GetWarningMap()
-		for key, msg := range e2.(*ValidationError).GetFlatWarningMap() {
-			addMsgs(warnMap, key, msg...)
+		for key, msg := range ve2.GetFlatWarningMap() {
+			addMsgs(ve.warningMap, key, msg...)
 		}
-		childErrs := ve.GetChildErrors()
-		for key, ve := range e2.(*ValidationError).GetChildErrors() {
-			childErrs[key] = ve
+		for key, child := range ve2.GetChildErrors() {
+			// the child's messages are already in the flat maps; never drop a child of e1
+			if _, exists := ve.children[key]; !exists {
+				ve.children[key] = child
+			}
 		}
 	} else {
-		errMap := ve.GetErrorMap()
-		addMsgs(errMap, "", e2.Error())
+		addMsgs(ve.errorMap, "", e2.Error())
 	}
 
 	return ve
+}
+
+// isNilError reports whether err is nil or a nil pointer (or other nil-able kind) wrapped in the error interface
+func isNilError(err error) bool {
+	if err == nil {
+		return true
+	}
+	switch v := reflect.ValueOf(err); v.Kind() {
+	case reflect.Ptr, reflect.Map, reflect.Slice, reflect.Func, reflect.Chan, reflect.Interface:
+		return v.IsNil()
+	}
+	return false
 }
 
 // Error returns the error messages in a single string
@@ -115,7 +136,7 @@ func (e *ValidationError) Error() string {
 
 // GetFlatErrorMap gets a map of error messages mapped by field
 func (e *ValidationError) GetFlatErrorMap() map[string][]string {
-	flatMap := e.errorMap
+	flatMap := copyMsgs(e.errorMap)
 	for k, v := range e.children {
 		childErrors := getFlattenedMap(k, v, false)
 		for ek, e := range childErrors {
@@ -127,7 +148,7 @@ func (e *ValidationError) GetFlatErrorMap() map[string][]string {
 
 // GetFlatWarningMap gets a map of warning messages mapped by field
 func (e *ValidationError) GetFlatWarningMap() map[string][]string {
-	flatMap := e.warningMap
+	flatMap := copyMsgs(e.warningMap)
 	for k, v := range e.children {
 		childErrors := getFlattenedMap(k, v, true)
 		for ek, e := range childErrors {
@@ -170,9 +191,14 @@ func getFlattenedMap(key string, ve *ValidationError, getWarnings bool) map[stri
 func prefixKeys(m map[string][]string, prefix string) map[string][]string {
 	result := make(map[string][]string)
 	for k, v := range m {
-		result[prefix+k] = v
+		result[prefix+k] = append([]string(nil), v...)
 	}
 	return result
+}
+
+// copyMsgs returns a copy of m (never nil) so that flattening does not write into the receiver
+func copyMsgs(m map[string][]string) map[string][]string {
+	return prefixKeys(m, "")
 }
 
 func addMsgs(errMap map[string][]string, context string, msg ...string) {
